@@ -466,8 +466,10 @@ class GraphBuilder(BuilderBase):
         self._root._graph.register_initializer(value)
 
     def _record_opset(self, domain: str, version: int | None) -> None:
-        # Graph already tracks opset imports; nothing to do.
-        pass
+        # The model must import every domain it uses: operators of another domain
+        # (a second OpBuilder, or the _domain call option) add theirs to the root graph.
+        if domain not in self._root._graph.opset_imports:
+            self._root._graph.opset_imports[domain] = 1 if version is None else version
 
     # ------------------------------------------------------------------
     # BuilderBase hook overrides
@@ -934,7 +936,8 @@ class OpBuilder:
 
     def _call_op(self, op_type: str, inputs: Sequence[Any], kwargs: dict[str, Any]):
         domain = kwargs.pop("_domain", self._domain)
-        version = kwargs.pop("_version", self._version)
+        # The version of this OpBuilder belongs to its own domain only
+        version = kwargs.pop("_version", self._version if domain == self._domain else None)
         outputs = kwargs.pop("_outputs", 1)
         name = kwargs.pop("_name", None)
         return self._builder.call_op(
